@@ -71,7 +71,7 @@ def handleSched (l : Line) : List Verdict :=
         (k == "logoutlocal" && s == a ++ "=204") || (k == "logout" && s == a ++ "=302") || (k == "frontchannel" && s == a ++ "=200")
     let logoutOk := statuses.any succ
     -- a request that STARTED after a logout had answered success and was nevertheless served as authenticated
-    let idxOf := fun (e : String) => (trace.zipIdx.find? (·.1 == e)).map (·.2)
+    let idxOf := fun (e : String) => (trace.zipIdx.find? (fun x => x.1 == e || x.1.startsWith (e ++ " "))).map (·.2)   -- "C:START" also as "C:START (blocked)"
     let logoutDoneAt : Option Nat := (procs.filterMap fun pr =>
       let (a, k) := splitColon pr
       if (k == "logoutlocal" || k == "logout" || k == "frontchannel") && statuses.any (fun s => s.startsWith (a ++ "=") && succ s) then idxOf (a ++ ":DEL session") else none).head?
